@@ -42,6 +42,30 @@ let hexlist_str (l : n list list) : string =
 
 let pass_or_err o = show (fun _ -> "pass") o
 
+(* signed hex of a Z (magnitude, minimal bytes) *)
+let hex_of_z (x : z) : string =
+  match x with
+  | Z0 -> "0"
+  | Zpos p -> min_hex_of_n (Npos p)
+  | Zneg p -> "m" ^ min_hex_of_n (Npos p)
+
+let oid_str (l : n list) : string = String.concat "." (List.map (fun x -> string_of_int (int_of_n x)) l)
+
+(* canonical rendering of a decoded ASN.1 value (the Go driver renders its structs the same way) *)
+let rec render (v : value) : string =
+  match v with
+  | VInt x -> hex_of_z x
+  | VBytes b -> hex_of_bytes b
+  | VBits (b, n) -> hex_of_bytes b ^ "/" ^ string_of_int (int_of_nat n)
+  | VOID o -> oid_str o
+  | VRaw (c, t, comp, b, full) ->
+    Printf.sprintf "%d.%d.%d.%s.%s" (int_of_n c) (int_of_n t) (if comp then 1 else 0) (hex_of_bytes b) (hex_of_bytes full)
+  | VStruct (_, fs) -> "(" ^ String.concat "," (List.map render fs) ^ ")"
+  | VAbsent -> "~"
+
+let unmarshal_show k b =
+  show (fun ((v, rest), _) -> "ok " ^ render v ^ " " ^ hex_of_bytes rest) (unmarshal k noParams b)
+
 let handle (f : string array) : string =
   match f.(0) with
   | "BER" ->
@@ -78,6 +102,11 @@ let handle (f : string array) : string =
   | "KXC" -> pass_or_err (ecc_processClientKeyExchange_gate (bytes_of_hex f.(2)))
   | "KXS" -> pass_or_err (ecc_processServerKeyExchange_gate (bytes_of_hex f.(2)))
   | "KXE" -> pass_or_err (ecdhe_processServerKeyExchange_gate (fun _ -> true) (bytes_of_hex f.(2)))
+  | "A1S" -> show (fun (r, s) -> "ok " ^ hex_of_z r ^ " " ^ hex_of_z s) (signDataToSignDigit (bytes_of_hex f.(2)))
+  | "A1C" -> show (fun out -> "ok " ^ hex_of_bytes out) (cipherUnmarshal (bytes_of_hex f.(2)))
+  | "A1X" -> unmarshal_show certOuterSchema (bytes_of_hex f.(2))
+  | "A1T1" -> unmarshal_show t1Schema (bytes_of_hex f.(2))
+  | "A1T2" -> unmarshal_show t2Schema (bytes_of_hex f.(2))
   | "D" -> "SKIP"
   | _ -> "BADCASE"
 
